@@ -152,7 +152,9 @@ impl RefDual {
     }
     pub fn powf(&self, p: f64) -> RefDual {
         let x = self.val.v;
-        self.unary3(x.powf(p), p * x.powf(p - 1.0), p * (p - 1.0) * x.powf(p - 2.0), p * (p - 1.0) * (p - 2.0) * x.powf(p - 3.0))
+        // a vanishing coefficient means the derivative is identically zero (avoid 0 * inf at x = 0)
+        let pc = |c: f64, e: f64| if c == 0.0 { 0.0 } else { c * x.powf(e) };
+        self.unary3(x.powf(p), pc(p, p - 1.0), pc(p * (p - 1.0), p - 2.0), pc(p * (p - 1.0) * (p - 2.0), p - 3.0))
     }
     pub fn recip(&self) -> RefDual {
         let x = self.val.v;
